@@ -9,7 +9,7 @@ import Dawn.Model.Diff
     env   <0|1> <old|none> <new>           1: the two environments have the same encoding
                                            → `never` | `same` | `changed <hex of reason> <diff>` | `changed-opaque` | `error <hex>` | `panic`
 
-  values:  s<hex> string, b<hex> bytes (`s-`, `b-` empty), t(v,…) tuple, l(v,…) list, d(k:v,…) dict
+  values:  n None, T / F booleans, i<decimal> int, s<hex> string, b<hex> bytes (`s-`, `b-` empty), t(v,…) tuple, l(v,…) list, d(k:v,…) dict
   diffs:   nil | L(old,new) | S(old,new,[e;…]) | M(old,new,{k>e;…})
   edits:   -<values> delete, =<values> common, +<values> add (values as a string, bytes or tuple value),
            ~(d,…) replace with d a diff or N (None)
@@ -17,6 +17,15 @@ import Dawn.Model.Diff
 open Dawn.Diff Driver
 
 partial def parseVal : List Char → Option (Val × List Char)
+  | 'n' :: rest => some (.none, rest)
+  | 'T' :: rest => some (.bool true, rest)
+  | 'F' :: rest => some (.bool false, rest)
+  | 'i' :: '-' :: rest =>
+    let ds := rest.takeWhile Char.isDigit
+    (String.ofList ds).toNat?.map fun n => (.int (-(n : Int)), rest.drop ds.length)
+  | 'i' :: rest =>
+    let ds := rest.takeWhile Char.isDigit
+    (String.ofList ds).toNat?.map fun n => (.int n, rest.drop ds.length)
   | 's' :: rest => parseHex rest fun b => .str b
   | 'b' :: rest => parseHex rest fun b => .bytes b
   | 't' :: '(' :: rest => (parseList rest).map fun (xs, r) => (.tuple xs, r)
@@ -56,6 +65,10 @@ def parseValue (s : String) : Option Val :=
   | _ => none
 
 partial def showVal : Val → String
+  | .none => "n"
+  | .bool true => "T"
+  | .bool false => "F"
+  | .int i => "i" ++ toString i
   | .str s => "s" ++ hexBytes s
   | .bytes s => "b" ++ hexBytes s
   | .tuple xs => "t(" ++ ",".intercalate (xs.map showVal) ++ ")"
